@@ -47,6 +47,25 @@ def _parents_name(repo, f):
     return None
 
 
+def _parents_expr(repo, f):
+    """the defining expression of the parent list (through a local name or written in place)"""
+    d = _defs(f)
+    for c in repo.calls_in(f):
+        e = None
+        if call_name(c) == "TabularCPD":
+            e = kwarg(c, "evidence")
+        elif call_name(c) == "state_counts":
+            e = kwarg(c, "parents")
+        if e is None:
+            continue
+        if isinstance(e, ast.Name):
+            if e.id in d and len(d[e.id]) == 1:
+                return d[e.id][0]
+            continue
+        return e
+    return None
+
+
 def _canon_parents(expr, nodevar):
     return re.sub(r"\b%s\b" % re.escape(nodevar), "NODE", norm(expr, 400))
 
@@ -59,12 +78,12 @@ def parentorder(rc):
     for rel, q in ((EB, "ParameterEstimator.state_counts"), (MLE, "MaximumLikelihoodEstimator.estimate_cpd"), (BE, "BayesianEstimator.estimate_cpd")):
         f = repo.func(rel, q)
         d = _defs(f)
-        pn = _parents_name(repo, f)
-        if pn is None or pn not in d or len(d[pn]) != 1:
+        pe = _parents_expr(repo, f)
+        if pe is None:
             raise AnalysisError(f"{q}: cannot find the single definition of the parent list")
         nodevar = f.params[1]
-        srcs[q] = (_canon_parents(d[pn][0], nodevar), d[pn][0], f)
-        rc.ob(f"{q}: parents = {norm(d[pn][0])}")
+        srcs[q] = (_canon_parents(pe, nodevar), pe, f)
+        rc.ob(f"{q}: parents = {norm(pe)}")
     canon = {v[0] for v in srcs.values()}
     if len(canon) != 1:
         for q, (c, e, f) in srcs.items():
@@ -266,7 +285,9 @@ def declared(rc):
     bc = bc.args[0] if isinstance(bc, ast.Call) and call_name(bc) in ("array", "asarray") and bc.args else bc
     scn = {b_["_SC"] for _, b_ in tm.find_all(f.node, "_SC = self.state_counts(_n, weighted=weighted)")} | {b_["_SC"] for _, b_ in tm.find_all(f.node, "_SC = self.state_counts(_n)")}
     rc.ob(f"posterior counts = {norm(bc) if bc is not None else None}")
-    if not (isinstance(bc, ast.BinOp) and isinstance(bc.op, ast.Add) and "pseudo_counts" in (dotted(bc.left), dotted(bc.right)) and ({dotted(bc.left), dotted(bc.right)} & scn)):
+    def _is_counts(x):
+        return dotted(x) in scn or (isinstance(x, ast.Call) and call_name(x) == "state_counts" and dotted(x.func.value) == "self")
+    if not (isinstance(bc, ast.BinOp) and isinstance(bc.op, ast.Add) and "pseudo_counts" in (dotted(bc.left), dotted(bc.right)) and (_is_counts(bc.left) or _is_counts(bc.right))):
         rc.fail(f, f.node, "Bayesian estimate = (count + pseudo count) normalised", construct="posterior counts")
     shp = [s for s in sites(f.node, lambda n: isinstance(n, ast.Raise)) if any(tm.is_(t, "pseudo_counts.shape != _SH", {"_SH": SH or "?"}) is not None and pol for t, pol in s.conds)]
     if not shp:
